@@ -65,7 +65,8 @@ def calculate_checksum_udp(packet: Packet):
     packet_checksum = packet.udp.sum.to_bytes(2, 'big')
     logging.info(f"expected checksum: 0x{calculated_checksum.hex()}, packet checksum: 0x{packet_checksum.hex()}")
 
-    return calculated_checksum == packet_checksum
+    # 0x0000 and 0xffff both denote zero in one's-complement arithmetic (UDP transmits a computed zero as 0xffff)
+    return calculated_checksum == packet_checksum or (calculated_checksum == b"\x00\x00" and packet_checksum == b"\xff\xff")
 
 
 def calculate_checksum_tcp(packet: Packet):
@@ -102,4 +103,5 @@ def calculate_checksum_tcp(packet: Packet):
 
     logging.info(f"expected checksum: 0x{calculated_checksum.hex()}, packet checksum: 0x{packet_checksum.hex()}")
 
-    return calculated_checksum == packet_checksum
+    # 0x0000 and 0xffff both denote zero in one's-complement arithmetic (UDP transmits a computed zero as 0xffff)
+    return calculated_checksum == packet_checksum or (calculated_checksum == b"\x00\x00" and packet_checksum == b"\xff\xff")
